@@ -143,7 +143,7 @@ def eval_equal(module_text, old_expr, new_expr):
         return False, None, "module did not execute: %r" % (e,)
     results = []
     for expr in (old_expr, new_expr):
-        env = _Env(p=3, q="w")
+        env = _Env(p=3, q="w", pair=(4, 5))
         try:
             code = compile(ast.Expression(body=expr), "<c16-expr>", "eval")
             results.append(("value", repr(eval(code, glob, env))))
@@ -392,6 +392,15 @@ class Judge:
             self.add("S4", step, "autofix:%s:%s" % (code, sig), "%s: diagnostics outside the fixed statement changed: lost %s gained %s" % (name, lost[:4], gained[:4]),
                      file=name, before=old_text, after=new_text)
             return
+        shared = line_has_semicolon_stmts(old_text, dels[0])
+
+        def fail(signature, detail, **kw):
+            # a statement that shares its physical line with another one (`a; b`, `if c: stmt`) is a
+            # recorded defect of the fixer (C16-K2): whatever goes wrong there carries that signature
+            if shared:
+                signature = "autofix:%s:rewritten-line-shared-with-other-statement" % code
+            self.add("S4", step, signature, detail, **kw)
+
         # S4b: exactly one statement differs
         try:
             diffs = module_diff(old_text, new_text)
@@ -399,7 +408,7 @@ class Judge:
             return
         if code == "unused_ignore":
             if diffs:
-                self.add("S4", step, "autofix:unused_ignore:ast-changed", "%s: removing an unused ignore comment changed the syntax tree" % name, file=name, before=old_text, after=new_text)
+                fail("autofix:unused_ignore:ast-changed", "%s: removing an unused ignore comment changed the syntax tree" % name, file=name, before=old_text, after=new_text)
             else:
                 self.stats["S4_autofix_ok"] += 1
             return
@@ -407,12 +416,12 @@ class Judge:
             sig = "unclassified"
             if line_has_semicolon_stmts(old_text, dels[0]):
                 sig = "rewritten-line-shared-with-other-statement"
-            self.add("S4", step, "autofix:%s:%s" % (code, sig if diffs else "no-ast-change"), "%s: %d statement sites differ after one fix" % (name, len(diffs)),
+            fail("autofix:%s:%s" % (code, sig if diffs else "no-ast-change"), "%s: %d statement sites differ after one fix" % (name, len(diffs)),
                      file=name, before=old_text, after=new_text)
             return
         olds, news = diffs[0]
         if len(olds) != len(news) and news and line_has_semicolon_stmts(old_text, dels[0]):
-            self.add("S4", step, "autofix:%s:rewritten-line-shared-with-other-statement" % code, "%s: %d statements became %d" % (name, len(olds), len(news)),
+            fail("autofix:%s:rewritten-line-shared-with-other-statement" % code, "%s: %d statements became %d" % (name, len(olds), len(news)),
                      file=name, before=old_text, after=new_text)
             return
         if code == "unused_variable":
@@ -428,10 +437,10 @@ class Judge:
                 o, n = minimal_expr_pair(olds[0], news[0])
                 ok = isinstance(o, ast.Name) and isinstance(n, ast.Name) and n.id == "_" and ("Variable %s " % o.id) in desc
             if not ok and line_has_semicolon_stmts(old_text, dels[0]):
-                self.add("S4", step, "autofix:unused_variable:rewritten-line-shared-with-other-statement", "%s: %s -> %s" % (
+                fail("autofix:unused_variable:rewritten-line-shared-with-other-statement", "%s: %s -> %s" % (
                     name, [ast.unparse(s) for s in olds][:3], [ast.unparse(s) for s in news][:3]), file=name, before=old_text, after=new_text)
             elif not ok:
-                self.add("S4", step, "autofix:unused_variable:not-the-intended-change", "%s: change is not the removal of the unused assignment: %s -> %s" % (
+                fail("autofix:unused_variable:not-the-intended-change", "%s: change is not the removal of the unused assignment: %s -> %s" % (
                     name, [ast.unparse(s) for s in olds][:3], [ast.unparse(s) for s in news][:3]), file=name, before=old_text, after=new_text)
             else:
                 self.stats["S4_autofix_ok"] += 1
@@ -446,7 +455,7 @@ class Judge:
                 except SyntaxError:
                     ok = False
             if not ok:
-                self.add("S4", step, "autofix:missing_f:not-the-f-string-of-the-same-template", "%s: `%s` -> `%s`" % (name, ast.unparse(o), ast.unparse(n)),
+                fail("autofix:missing_f:not-the-f-string-of-the-same-template", "%s: `%s` -> `%s`" % (name, ast.unparse(o), ast.unparse(n)),
                          file=name, before=old_text, after=new_text)
             else:
                 self.stats["S4_autofix_ok"] += 1
@@ -455,7 +464,7 @@ class Judge:
             o, n = minimal_expr_pair(olds[0], news[0])
             comparable, equal, detail = eval_equal(old_text, o, n)
             if comparable and not equal:
-                self.add("S4", step, "autofix:%s:replacement-evaluates-differently" % code, "%s: `%s` -> `%s`: %s" % (name, ast.unparse(o), ast.unparse(n), detail),
+                fail("autofix:%s:replacement-evaluates-differently" % code, "%s: `%s` -> `%s`: %s" % (name, ast.unparse(o), ast.unparse(n), detail),
                          file=name, before=old_text, after=new_text)
             elif comparable:
                 self.stats["S4_autofix_eval_equal"] += 1
@@ -463,7 +472,7 @@ class Judge:
             else:
                 self.stats["S4_autofix_not_evaluable"] += 1
         else:
-            self.add("S4", step, "autofix:%s:statement-count-changed" % code, "%s: %d statements became %d" % (name, len(olds), len(news)), file=name, before=old_text, after=new_text)
+            fail("autofix:%s:statement-count-changed" % code, "%s: %d statements became %d" % (name, len(olds), len(news)), file=name, before=old_text, after=new_text)
 
     # -- the -r loop --------------------------------------------------------------------------
     def on_loop(self, e):
